@@ -28,7 +28,7 @@ func BoundaryCounts(full bool) []int {
 func BoundaryLengths(full bool) []int {
 	l := []int{8, 15, 16, 17, 31, 32, 33, 63, 64, 65, 127, 128, 129, 255, 256, 257, 1023, 1024, 1025}
 	if full {
-		l = append(l, 4096, 65535, 65536, 65537, 1 << 20)
+		l = append(l, 4096, 65535, 65536, 65537, 1<<20)
 	}
 	return l
 }
@@ -399,7 +399,64 @@ func Presentations(v spec.Vec, f func(s, label string)) {
 	}
 }
 
+// Encodings: the vector as it looks after passing through a URL, an HTML page, a JSON or
+// source-code literal, or a mail body: one character, one class of characters (separators,
+// colons, letters, digits) or everything replaced by its percent / entity / backslash /
+// quoted-printable escape. A decoder that unescapes before parsing accepts these.
+func escapeForms(c byte) []string {
+	return []string{
+		fmt.Sprintf("%%%02X", c), fmt.Sprintf("%%%02x", c), fmt.Sprintf("%%25%02X", c),
+		fmt.Sprintf("&#%d;", c), fmt.Sprintf("&#x%02X;", c), fmt.Sprintf("&#x%02x;", c),
+		fmt.Sprintf("\\x%02x", c), fmt.Sprintf("\\u%04x", c), fmt.Sprintf("\\%03o", c), fmt.Sprintf("=%02X", c),
+	}
+}
+
+var namedEntities = map[byte]string{':': "&colon;", '/': "&sol;", '.': "&period;"}
+
+func Encodings(v spec.Vec, f func(s, label string)) {
+	base := v.String()
+	// one position at a time, every escape form
+	for i := 0; i < len(base); i++ {
+		for _, e := range escapeForms(base[i]) {
+			f(base[:i]+e+base[i+1:], "encoded:one-character")
+		}
+		if e, ok := namedEntities[base[i]]; ok {
+			f(base[:i]+e+base[i+1:], "encoded:one-character")
+		}
+	}
+	// whole classes
+	classes := map[string]func(c byte) bool{
+		"separators": func(c byte) bool { return c == '/' },
+		"colons":     func(c byte) bool { return c == ':' },
+		"punctuation": func(c byte) bool {
+			return c == '/' || c == ':' || c == '.'
+		},
+		"letters":    func(c byte) bool { return c >= 'A' && c <= 'Z' },
+		"digits":     func(c byte) bool { return c >= '0' && c <= '9' },
+		"everything": func(c byte) bool { return true },
+	}
+	for _, name := range []string{"separators", "colons", "punctuation", "letters", "digits", "everything"} {
+		for k := range escapeForms('A') {
+			var b strings.Builder
+			for i := 0; i < len(base); i++ {
+				if classes[name](base[i]) {
+					b.WriteString(escapeForms(base[i])[k])
+				} else {
+					b.WriteByte(base[i])
+				}
+			}
+			f(b.String(), "encoded:class:"+name)
+		}
+	}
+	f(strings.ReplaceAll(base, "/", "+"), "encoded:plus")
+	f(strings.ReplaceAll(base, ":", "="), "encoded:equals")
+	f(strings.ReplaceAll(base, "/", "&"), "encoded:ampersand")
+	f(strings.ReplaceAll(strings.ReplaceAll(base, ":", "="), "/", "&"), "encoded:query-string")
+	f(strings.ReplaceAll(base, "/", "\\/"), "encoded:json-slash")
+}
+
 func Shapes(ver int, v spec.Vec, level spec.Level, full bool, f func(s, label string)) {
+	Encodings(v, f)
 	Presentations(v, f)
 	ValueRuns(ver, v, f)
 	Moves(v, f)
